@@ -196,3 +196,43 @@ REG.add(Contract(f"{NG}.__init__", module=M_NX, kind="method",
                      "chain_node(level_limit, all_modules, flat(level_limit, impn_importer(i))) and chain_node(level_limit, all_modules, flat(level_limit, impn_importee(i))), "
                      f"(flat(level_limit, impn_importer(i)), flat(level_limit, impn_importee(i))) in {_G}.edges))"],
                  properties=["C02", "C04", "C09", "C13"]))
+
+# ---------------------------------------------------------------- the Import classes themselves (string view): eval_structure/types.py, file_import/import_types.py
+# The REAL classes as mutable records. What the record interfaces 'Import.*' (c_filters.py, over the Imp datatype) and 'ImportN.*' (above) state abstractly is
+# proved here on the code: importer() / importee() return the stored names, the two parent lists are get_parent_modules of the importer / of the importee
+# (for a relative import: of the RESOLVED importee, fix F10b).
+M_IT2 = "pytestarch.eval_structure_generation.file_import.import_types"
+vals.declare_obj("ImportObj", dict(_importer="Str", _importer_module_hierarchy="Bag[Str]"))
+vals.declare_obj("AbsImportObj", dict(_importer="Str", _importer_module_hierarchy="Bag[Str]", _module_name="Str", _importee_module_hierarchy="Bag[Str]"))
+vals.declare_obj("RelImportObj", dict(_importer="Str", _importer_module_hierarchy="Seq[Str]", _module_name="Str", _level="Int", _importee="Str",
+                                      _importee_module_hierarchy="Bag[Str]"))
+REG.class_bases["AbsoluteImport"] = ["Import"]
+REG.class_bases["RelativeImport"] = ["Import"]
+# Import.__init__ is executed (inlined) inside the constructors of the subclasses: super().__init__(importer)
+REG.add(Contract("Import.__init__", module=M_TY, kind="method", inline=True, params=dict(self="Any", importer="Str"), view="string", properties=["C02"]))
+REG.add(Contract("Import.importer@obj", module=M_TY, qualname="Import.importer", kind="method", view="string", params=dict(self="ImportObj"), returns="Str",
+                 defn="self._importer", properties=["C02", "C04"]))
+REG.add(Contract("Import.importer_parent_modules@obj", module=M_TY, qualname="Import.importer_parent_modules", kind="method", view="string",
+                 params=dict(self="ImportObj"), returns="Bag[Str]", defn="self._importer_module_hierarchy", properties=["C02", "C04"]))
+REG.add(Contract("AbsoluteImport.__init__", module=M_IT2, kind="method", view="string", params=dict(self="AbsImportObj", importer="Str", module_name="Str"),
+                 returns="None", modifies=["self"],
+                 ensures=["self._importer == importer", "self._module_name == module_name",
+                          "forall(Str, lambda p: (p in self._importer_module_hierarchy) == str_anc(p, importer))",
+                          "forall(Str, lambda p: (p in self._importee_module_hierarchy) == str_anc(p, module_name))"],
+                 properties=["C02", "C04"]))
+REG.add(Contract("AbsoluteImport.importee", module=M_IT2, kind="method", view="string", params=dict(self="AbsImportObj"), returns="Str",
+                 defn="self._module_name", properties=["C02", "C04"]))
+REG.add(Contract("AbsoluteImport.importee_parent_modules", module=M_IT2, kind="method", view="string", params=dict(self="AbsImportObj"), returns="Bag[Str]",
+                 defn="self._importee_module_hierarchy", properties=["C02", "C04"]))
+REG.add(Contract("RelativeImport.importee", module=M_IT2, kind="method", view="string", params=dict(self="RelImportObj"), returns="Str",
+                 defn="self._importee", properties=["C02"]))
+REG.add(Contract("RelativeImport.importee_parent_modules", module=M_IT2, kind="method", view="string", params=dict(self="RelImportObj"), returns="Bag[Str]",
+                 defn="self._importee_module_hierarchy", properties=["C02"]))
+# the importee of a relative import: the element `level` places from the END of the importer's parent list, '.', the module text. (That this element is the
+# dotted ancestor `level` steps up needs the ORDER of get_parent_modules' list, which is not proved -- see notes/ctr-graph.md.)
+REG.add(Contract("RelativeImport._calculate_importee", module=M_IT2, kind="method", view="string", params=dict(self="RelImportObj"), returns="Str",
+                 requires=["self._level >= 1"],
+                 raises=[("IndexError", "self._level > len(self._importer_module_hierarchy)")],
+                 ensures=["result == seq_at(self._importer_module_hierarchy, len(self._importer_module_hierarchy) - self._level) + '.' + self._module_name"],
+                 note="requires: relative imports have level >= 1 (ast.ImportFrom.level; the converter creates RelativeImport only for level != 0)",
+                 properties=["C02"]))
